@@ -5,5 +5,6 @@ CONSTANTS Variant = "ok"
  MaxN = 4
  MaxV = 2
  MaxRedel = 4
+ MaxFault = 0
 INVARIANTS Emit
 CHECK_DEADLOCK FALSE
